@@ -447,8 +447,9 @@ impl LockFreeMemoryPool {
             crate::verif_hooks::yield_point(200);
 
             if current_offset == LIST_TAIL {
-                // Empty bin, need to allocate new memory
-                return self.allocate_new_block(size);
+                // Empty bin, need to allocate new memory.  Blocks are recycled per bin, so a
+                // new block must have the full bin size: any request of this bin may get it later.
+                return self.allocate_new_block(FAST_BIN_SIZES[bin_index]);
             }
 
             // Load next pointer from current head
@@ -499,8 +500,8 @@ impl LockFreeMemoryPool {
             }
         }
 
-        // Max retries exceeded, fall back to new allocation
-        self.allocate_new_block(size)
+        // Max retries exceeded, fall back to new allocation (full bin size, see above)
+        self.allocate_new_block(FAST_BIN_SIZES[bin_index])
     }
 
     /// Deallocate to fast bin using lock-free stack
@@ -586,13 +587,26 @@ impl LockFreeMemoryPool {
         
         // Always allocate from backing memory to ensure consistent pointer validation
         // External cache allocations would cause pointer validation failures in deallocate
-        let offset = self.next_offset.fetch_add(aligned_size as u32, Ordering::Relaxed);
+        // Reserve the range only if it fits: a refused request must not move the bump offset
+        // (it used to, and `aligned_size as u32` could even wrap the offset back onto live blocks).
+        let mut offset = self.next_offset.load(Ordering::Relaxed);
+        loop {
+            let end = match (offset as usize).checked_add(aligned_size) {
+                Some(end) if end <= self.config.memory_size && end <= u32::MAX as usize => end,
+                _ => return Err(ZiporaError::out_of_memory(aligned_size)),
+            };
+            match self.next_offset.compare_exchange_weak(
+                offset,
+                end as u32,
+                Ordering::Relaxed,
+                Ordering::Relaxed,
+            ) {
+                Ok(_) => break,
+                Err(current) => offset = current,
+            }
+        }
         #[cfg(zipora_verif)]
         crate::verif_hooks::yield_point(220);
-        
-        if offset as usize + aligned_size > self.config.memory_size {
-            return Err(ZiporaError::out_of_memory(aligned_size));
-        }
 
         let ptr = self.offset_to_ptr(offset)?;
         
